@@ -43,19 +43,24 @@ def rule_await_table(ctx):
             zero = (ce.get("resolved_args") or ce.get("args") or [None])[0] in ("0", "0_usize")
     ctx.check(zero, R, "zero-headers", "the await-100 reader parses with a field limit of 0 (a response with fields is told apart)", loc=body_loc(tr))
     I = mk_interp(prog, opaque=OPAQUE, event_hook=_push_hook())
-
-    def init(st):
-        st.write_leaf(FLOW, (), ("term", ("in", "flow")))
-        st.write_leaf(FLOW, INNER + (("f", "call"), ("$v",)), ("variant", "WithBody"))
-        st.write_leaf(FLOW, AWAIT, ("int", 1))
-        st.write_leaf(FLOW, SSB, ("int", 1))
-        st.write_leaf(FLOW, INNER + (("f", "close_reason"), ("f", "len")), ("int", 0))
-        st.write_leaf(("OBJ", "input"), (), ("term", ("in", "input")))
-    try:
-        outs = I.run(tr, [ref(FLOW), ref(("OBJ", "input"))], init)
-    except (PathLimit, Unsupported) as e:
-        ctx.incomplete(R, "interp", str(e))
-        return
+    # the table must not depend on what was recorded before the handshake: no earlier close reason, and an
+    # HTTP/1.0 request that also said `connection: close` (two reasons already on the list)
+    outs = []
+    for pre in ((), ("Http10", "ClientConnectionClose")):
+        def init(st, pre=pre):
+            st.write_leaf(FLOW, (), ("term", ("in", "flow")))
+            st.write_leaf(FLOW, INNER + (("f", "call"), ("$v",)), ("variant", "WithBody"))
+            st.write_leaf(FLOW, AWAIT, ("int", 1))
+            st.write_leaf(FLOW, SSB, ("int", 1))
+            st.write_leaf(FLOW, INNER + (("f", "close_reason"), ("f", "len")), ("int", len(pre)))
+            for i, v in enumerate(pre):
+                st.write_leaf(FLOW, INNER + (("f", "close_reason"), ("f", "arr"), ("f", "#%d" % i), ("$v",)), ("variant", v))
+            st.write_leaf(("OBJ", "input"), (), ("term", ("in", "input")))
+        try:
+            outs += I.run(tr, [ref(FLOW), ref(("OBJ", "input"))], init)
+        except (PathLimit, Unsupported) as e:
+            ctx.incomplete(R, "interp", str(e))
+            return
     rows = []
     for o in outs:
         if o.kind != "return":
